@@ -188,7 +188,10 @@ static void createInterp(const std::string& actor, const js::Value& op) {
 		if (op["rec_queues"].boolean(true)) {
 			al.externalQueue = EventQueue(std::shared_ptr<EventQueueImpl>(new RecQueue("ext")));
 			al.internalQueue = EventQueue(std::shared_ptr<EventQueueImpl>(new RecQueue("int")));
-			al.delayQueue = DelayedEventQueue(std::shared_ptr<DelayedEventQueueImpl>(new RecDelayQueue(impl)));
+			if (op["hold_delayed"].boolean(false))
+				al.delayQueue = DelayedEventQueue(std::shared_ptr<DelayedEventQueueImpl>(new HoldDelayQueue(impl)));
+			else
+				al.delayQueue = DelayedEventQueue(std::shared_ptr<DelayedEventQueueImpl>(new RecDelayQueue(impl)));
 		}
 		interp.setActionLanguage(al);
 		if (op["monitor"].boolean(true)) interp.addMonitor(&R->monitor);
@@ -215,7 +218,7 @@ static void execOp(const std::string& actor, size_t idx, const js::Value& op) {
 	tr::flush_fd(1);
 	std::string result;
 	Interpreter interp; // our own handle for the duration of the call
-	bool needsInterp = name == "step" || name == "run" || name == "recv" || name == "cancel" || name == "reset" ||
+	bool needsInterp = name == "step" || name == "run" || name == "follow" || name == "recv" || name == "cancel" || name == "reset" ||
 	                   name == "serialize" || name == "deserialize" || name == "validate" || name == "transform" ||
 	                   name == "state" || name == "eval";
 	if (needsInterp) {
@@ -263,6 +266,33 @@ static void execOp(const std::string& actor, size_t idx, const js::Value& op) {
 				for (size_t u = 0; u < until.size(); u++)
 					if (until[u].str() == result) stop = true;
 				if (stop) break;
+			}
+		} else if (name == "follow") {
+			// C06: run to rest, then release the held delayed event that the model dequeued next; repeat
+			const js::Value& order = op["order"];
+			int64_t maxSteps = op["max"].i64(400);
+			InterpreterImpl* impl = interp.getImpl().get();
+			RecQueue* extq = dynamic_cast<RecQueue*>(impl->_externalQueue.getImplBase().get());
+			HoldDelayQueue* hold = dynamic_cast<HoldDelayQueue*>(impl->_delayQueue.getImplDelayed().get());
+			result = "NOHOLD";
+			if (extq && hold) {
+				int64_t steps = 0;
+				for (;;) {
+					bool rest = false;
+					while (steps++ < maxSteps) {
+						doStep(actor, R->slots[i], interp, 0, result);
+						if (result == "IDLE" || result == "FINISHED" || result == "EXC") { rest = true; break; }
+					}
+					if (!rest) { result = "CAP"; break; }
+					if (result != "IDLE") break;
+					size_t k = (size_t)extq->dequeued;
+					if (k >= order.size()) { result = "IDLE"; break; }
+					if (!hold->release(order[k].str())) {
+						tr::Rec(actor, "follow-miss").num((long long)k).str(order[k].str());
+						result = "MISS";
+						break;
+					}
+				}
 			}
 		} else if (name == "recv") {
 			Event e(op["name"].str("e"), Event::EXTERNAL);
